@@ -305,6 +305,12 @@ class SecureField(Field):
         super().__init__(sensitive=sensitive, **kwargs)
         self.method = method
 
+    def _validate(self, cfg: Config, value: Any) -> Any:
+        # an empty secret is saved as "unset", so it cannot satisfy required=True
+        if self.required and not value:
+            raise ValueError("value is required")
+        return value
+
     def to_basic(self, cfg: Config, value: str) -> Optional[dict]:
         if not value:
             return None
